@@ -990,7 +990,21 @@ func (run *simRun) onPanic() {
 		if ni != nil {
 			who = ni.String()
 		}
-		if run.target == "C09" && strings.HasPrefix(site, "log.(") && strings.Contains(msg, "invalid memory address") {
+		unmapped := strings.HasPrefix(site, "log.(") && strings.Contains(msg, "invalid memory address")
+		if unmapped {
+			// whose read was it? a replication goroutine (or its pipeline writer) of a node that
+			// has been removed from the configuration is no longer looked at by compaction
+			for g := p.G; g != nil; g = g.Parent {
+				if repl, ok := g.User.(*replication); ok {
+					if repl.status.removed {
+						site += ":replication_of_removed_node"
+					}
+					break
+				}
+			}
+			sig = "panic:" + site + ":" + firstLine(msg)
+		}
+		if run.target == "C09" && unmapped {
 			// a read through a log view whose segment has been unmapped: compaction or an
 			// installed snapshot invalidated log data somebody was still reading
 			run.violate("C09", "unmapped_log_read", "unmapped_log_read:"+site, "goroutine %v of %s read log memory that had been unmapped: %s\n%s", p.G, who, msg, trimStack(p.Stack))
